@@ -43,7 +43,9 @@ func (d *c11SqDev) ReadAt(p []byte, off int64) (int, error) {
 }
 
 func c11P16(b []byte, v uint16) { b[0], b[1] = byte(v), byte(v>>8) }
-func c11P32(b []byte, v uint32) { b[0], b[1], b[2], b[3] = byte(v), byte(v>>8), byte(v>>16), byte(v>>24) }
+func c11P32(b []byte, v uint32) {
+	b[0], b[1], b[2], b[3] = byte(v), byte(v>>8), byte(v>>16), byte(v>>24)
+}
 
 // c11Meta wraps data into one uncompressed metadata block (bit 15 of the length word set).
 func c11Meta(data []byte) []byte {
